@@ -103,7 +103,9 @@ def case_hist(seed, out, spec, wd):
                 mark = 'mark-%d' % counter[0]
                 line = r.pick(lines) if not (handles and r.chance(0.5)) else handles[-1][2]
                 style = r.pick(['snapshot', 'snapshot', 'metric', 'log'])
-                args = {'fire_count': '-1', 'fire_period': '0'}
+                # argument values given in code are not always text
+                args = r.pick([{'fire_count': '-1', 'fire_period': '0'}, {'fire_count': -1, 'fire_period': 0},
+                               {'fire_count': -1, 'fire_period': '0'}])
                 watches, metrics = [], []
                 if style == 'snapshot':
                     watches = ['"%s"' % mark]
